@@ -153,6 +153,8 @@ MATRICES = {
     "point_reflect": (-1, 0, 0, -1),
     "mirror_scale": (Fr(-3, 4), 0, 0, Fr(5, 4)),
     "general": (Fr(3, 4), Fr(1, 2), Fr(-1, 4), Fr(5, 4)),
+    "shrink_mirror": (Fr(-3, 4), 0, 0, Fr(1, 2)),
+    "general_small": (Fr(3, 4), Fr(1, 4), Fr(-1, 4), Fr(1, 2)),
 }
 
 
